@@ -194,6 +194,8 @@ def oracle(run, corr, deep, prop, profiles, n_quick, n_thorough, extra_lines=())
 
 
 def _sched_still_fails(w, a):
+    if isinstance(w.get("scenario"), dict):
+        return _sched_judge(w["scenario"], a) is not None
     parts = a.split(" | ")
     fwd, calls, stale, excs, _, _ = _parse_race(parts[0].split(" ; ")[-1])
     if excs:
@@ -217,7 +219,16 @@ def replay(run, path, prop):
             a = vf.run_lines([vf.PY, SCHED_HARNESS, vf.TRX], [w["history"]])[0]
             print("replay schedule (boundary %s of %s, racing %s): %s" % (w.get("boundary"), w.get("of"), w.get("racing_op"), a[-700:]))
             print("  recorded failure: %s  -- compare the observations above" % w["what"])
-            bad += 1 if ("EXC:" in a or w["what"]) and _sched_still_fails(w, a) else 0
+            try:        # what the interleaving model computes for the same schedule (driver as built by the last run)
+                m = vf.run_driver([w["history"]])[0]
+                ca = sched_canon(a)
+                print("  interleaving model: %s" % ("agrees with the real code on this schedule" if m == ca else
+                                                    "differs: %s" % json.dumps(first_diff(w["history"], ca, m))[:600]))
+            except Exception:
+                pass
+            still = bool(("EXC:" in a or w["what"]) and _sched_still_fails(w, a))
+            print("  still fails" if still else "  passes now")
+            bad += 1 if still else 0
             continue
         j = judge(run, [w["history"]], prop)
         print("replay %s: %s" % (prop, json.dumps(describe(w["history"]))[:1500]))
@@ -554,6 +565,37 @@ def sched_correspond(run, corr, n_quick=260, n_thorough=5000):
     return nbad
 
 
+def _sched_judge(info, a):
+    """the C03 oracle on the answer of the real code for one forced schedule: None, or what is violated"""
+    parts = a.split(" | ")
+    fwd, calls, stale, excs, _, _ = _parse_race(parts[0].split(" ; ")[-1])
+    st = parts[2].split(" # ")
+    j = info["j"]
+    f = st[j].split()
+    q = f[-1][1:]
+    qend = 0 if q == "-" else len(q.split("/"))
+    running = f[0] == "R1"
+    fn0 = info["fn0"]
+    acc = list(info["queued"]) + ([info["fn"]] if info["kind"] == "arrival" else [])
+    w = None
+    if excs:
+        w = "exception %s while the operation raced the tick" % excs
+    elif any(s != j or bfn != tfn or tfn != fn0 for (s, bfn, tfn) in fwd):
+        w = "a burst was put on the air outside its own frame: %s (tick %d)" % (fwd, fn0)
+    elif len(fwd) > sum(1 for x in acc if x == fn0):
+        w = "more transmissions (%d) than bursts due in frame %d (%d)" % (len(fwd), fn0, sum(1 for x in acc if x == fn0))
+    elif info["kind"] == "poweroff":
+        if qend != 0 or running:
+            w = "after POWEROFF the transceiver still holds %d queued burst(s) (running=%s)" % (qend, running)
+    else:
+        if len(fwd) + stale + qend != len(acc):
+            w = "a burst vanished or was duplicated: accepted %d = forwarded %d + stale %d + queued %d does not hold" % (
+                len(acc), len(fwd), stale, qend)
+        elif len(fwd) < sum(1 for x in info["queued"] if x == fn0):
+            w = "a burst queued before the tick for frame %d was not transmitted in it" % fn0
+    return w
+
+
 def sched_oracle(run, corr, deep, n_quick=260, n_thorough=5000):
     """every interleaving position of ONE socket-thread operation against ONE tick, on the real objects:
     no exception in either thread; bursts are forwarded only in their own frame and at most once;
@@ -565,35 +607,11 @@ def sched_oracle(run, corr, deep, n_quick=260, n_thorough=5000):
     scen, lines, ans, meta = d["scen"], d["lines"], d["impl"], d["meta"]
     found = 0
     for l, a, (info, k, pts, _) in zip(lines, ans, meta):
-        parts = a.split(" | ")
-        fwd, calls, stale, excs, _, _ = _parse_race(parts[0].split(" ; ")[-1])
-        st = parts[2].split(" # ")
-        j = info["j"]
-        f = st[j].split()
-        q = f[-1][1:]
-        qend = 0 if q == "-" else len(q.split("/"))
-        running = f[0] == "R1"
-        fn0 = info["fn0"]
-        acc = list(info["queued"]) + ([info["fn"]] if info["kind"] == "arrival" else [])
-        w = None
-        if excs:
-            w = "exception %s while the operation raced the tick" % excs
-        elif any(s != j or bfn != tfn or tfn != fn0 for (s, bfn, tfn) in fwd):
-            w = "a burst was put on the air outside its own frame: %s (tick %d)" % (fwd, fn0)
-        elif len(fwd) > sum(1 for x in acc if x == fn0):
-            w = "more transmissions (%d) than bursts due in frame %d (%d)" % (len(fwd), fn0, sum(1 for x in acc if x == fn0))
-        elif info["kind"] == "poweroff":
-            if qend != 0 or running:
-                w = "after POWEROFF the transceiver still holds %d queued burst(s) (running=%s)" % (qend, running)
-        else:
-            if len(fwd) + stale + qend != len(acc):
-                w = "a burst vanished or was duplicated: accepted %d = forwarded %d + stale %d + queued %d does not hold" % (
-                    len(acc), len(fwd), stale, qend)
-            elif len(fwd) < sum(1 for x in info["queued"] if x == fn0):
-                w = "a burst queued before the tick for frame %d was not transmitted in it" % fn0
+        w = _sched_judge(info, a)
         if w is not None:
             found += run.report_witness({"kind": "schedule", "property": "C03", "what": w, "boundary": k, "of": pts,
-                                         "racing_op": info["kind"], "history": l, "readable": describe(l.replace("R %d " % k, ""))})
+                                         "racing_op": info["kind"], "scenario": info, "history": l,
+                                         "readable": describe(l.replace("R %d " % k, ""))})
             if found >= 3:
                 break
     corr.distribution["oracle(C03): race scenarios"] = len(scen)
